@@ -159,7 +159,13 @@ func factsSession() {
 		iCS := idx(evs, 0, "assign", `^err := sesh\.closeSession\(\)$`)
 		iSend := idx(evs, 0, "call", `^sesh\.sb\.send\(`)
 		iCA := idx(evs, 0, "call", `^sesh\.sb\.closeAll\(\)`)
-		boolFact(g, "closeSendsNoticeThenClosesAll", iCS >= 0 && iSend > iCS && iCA > iSend && evs[iCA].depth == 0, "Close: closeSession, send the closing notice, closeAll")
+		// either `closeAll()` after the send at depth 0 (reached only when the notice went out), or deferred right after the
+		// closeSession test (runs on every way out once closeSession has succeeded, after the notice was attempted)
+		iDef := idx(evs, 0, "defer", `^sesh\.sb\.closeAll\(\)$`)
+		iCSErr := idx(evs, iCS, "if", `^err != nil$`)
+		deferred := iCS >= 0 && iCSErr > iCS && iDef > matchingEnd(evs, iCSErr) && iDef < iSend && evs[iDef].depth == 0
+		boolFact(g, "closeSendsNoticeThenClosesAll", iCS >= 0 && iSend > iCS && ((iCA > iSend && evs[iCA].depth == 0) || deferred), "Close: closeSession, send the closing notice, closeAll")
+		boolFact(g, "closeSweepsEvenIfNoticeFails", deferred, "Close: sb.closeAll() is deferred as soon as closeSession has succeeded, so the connections are closed whether or not the notice could be built and sent")
 	} else {
 		unrec(g, "closeSendsNoticeThenClosesAll", "Session.Close not found")
 	}
